@@ -212,9 +212,14 @@ class Compiler:
             try:
                 return get_as_int(state, "link address", state["insn"], address, bitness=16, unsigned=False)
             except DeferredCycle:
+                try:
+                    explanation = f"The link base is mathematically equal to {address.resolve(state)!r},\nwhere LA denotes link base. In other words, the"
+                except RecursionError:
+                    # The expression is defined through symbols that are circular themselves
+                    explanation = "The"
                 reports.error(
                     "recursive-definition",
-                    (state["insn"].ctx_start, state["insn"].ctx_end, f"The link base is mathematically equal to {address.resolve(state)!r},\nwhere LA denotes link base. In other words, the link base depends on itself,\nand thus cannot be determined.")
+                    (state["insn"].ctx_start, state["insn"].ctx_end, f"{explanation} link base depends on itself,\nand thus cannot be determined.")
                 )
                 return 0
 
@@ -317,6 +322,35 @@ class Compiler:
 
 
     def compile_and_link_files(self, files_ast):
+        try:
+            return self.compile_and_link_files_unchecked(files_ast)
+        except DeferredCycle:
+            # Reports a critical error, i.e. does not return
+            self.report_recursive_definition(files_ast)
+            raise
+
+
+    def report_recursive_definition(self, files_ast):
+        # Blame a symbol that takes part in the cycle, if there is one
+        for _, (symbol, value) in self.symbols.items():
+            try:
+                wait(value)
+            except DeferredCycle:
+                reports.critical(
+                    "recursive-definition",
+                    (symbol.ctx_start, symbol.ctx_end, "The value of this symbol depends on itself, and thus cannot be determined.")
+                )
+            except Exception:  # pylint: disable=broad-except
+                # Not computable for another reason (e.g. the link base is not known yet)
+                continue
+        body = files_ast[0].body
+        reports.critical(
+            "recursive-definition",
+            (body.ctx_start, body.ctx_end, "Some addresses or sizes in this program depend on themselves, and thus cannot be determined.")
+        )
+
+
+    def compile_and_link_files_unchecked(self, files_ast):
         link_base = {
             "promise": Promise[int]("LA"),
             "set_where": None
